@@ -149,6 +149,23 @@ def ref_monte(b):
     return abs((4.0 * inc / m - math.pi) / math.pi)
 
 
+def monte_value(counts):
+    """fabs((4.0 * inmont / mcount - PI) / PI) from the model's integer core "mcount/inmont"; None = undefined"""
+    m, i = (int(x) for x in counts.split("/"))
+    return None if m == 0 else abs((4.0 * (i / m) - math.pi) / math.pi)
+
+
+def py_counts(b):
+    m = len(b) // 6
+    inc = 0
+    for k in range(m):
+        g = b[6 * k:6 * k + 6]
+        x = (g[0] << 16) | (g[1] << 8) | g[2]
+        y = (g[3] << 16) | (g[4] << 8) | g[5]
+        inc += x * x + y * y <= (256 ** 3 - 1) ** 2
+    return "%d/%d" % (m, inc)
+
+
 def float_rule(expr, ref, rel=1e-9):
     if ref is None:
         return "not defined %s" % expr
@@ -270,10 +287,17 @@ def run(chk):
         batch.add(("not defined math.count(%d, %s)" % (byte, a)) if dist is None else "math.count(%d, %s) == %d" % (byte, a, dist.get(byte, 0)),
                   "range:count", dict(info0, why="model distribution"))
         # float statistics: tests against the definition on the addressed bytes
-        for fn, ref in (("serial_correlation", ref_serial), ("monte_carlo_pi", ref_monte)):
+        for fn in ("serial_correlation", "monte_carlo_pi"):
             mb = models[fn]["bytes"]
             expr = "math.%s(%s)" % (fn, a)
-            r = None if mb == "undef" else ref(list(vlib.unhx(mb)))
+            if mb == "undef":
+                r = None
+            elif fn == "serial_correlation":
+                r = ref_serial(list(vlib.unhx(mb)))
+            else:
+                r = monte_value(models[fn]["monte"])          # integer core from the model (theorem monte_carlo_data_exact)
+                if models[fn]["monte"] != py_counts(vlib.unhx(mb)) or r != ref_monte(list(vlib.unhx(mb))):
+                    chk.violation("model-monte", "model monte carlo counts differ from the Python reference on %s" % mb, {"bytes": mb}, found_input=False)
             nb = 0 if mb == "undef" else len(vlib.unhx(mb))
             first = [(b0, d0) for b0, d0 in blocks if b0 <= off < b0 + len(d0)]
             crossing = nb > 0 and bool(first) and off + nb > first[0][0] + len(first[0][1])
@@ -321,7 +345,7 @@ def run(chk):
                 chk.violation("model-crc", "model crc32 differs from zlib on %s" % mb, {"bytes": mb}, found_input=False)
             classes.add((tag.split("#")[0], classify(blocks, off, len_, mb)))
             b = batches.setdefault(pi, Batch("%s-%d" % (prefix, pi), scan_of(blocks)))
-            range_rules(b, blocks, off, len_, models, tag, extra_float=(j % 3 == 0) or thorough)
+            range_rules(b, blocks, off, len_, models, tag, extra_float=True)
         run_batches(chk, hscan, list(batches.values()), stats)
 
     # ---- A. one buffer = one block: exhaustive (offset, length) for every size 0..16
@@ -479,7 +503,9 @@ def run(chk):
     fixed = ["", " ", "-", "+", "0", "-0", "+0", "00", "08", "0x", "0X1f", "0xg", "-0x10", "0x-1", " \t\n\v\f\r12", "12 ", "1 2", "1\x0034", "\x0012",
              "--1", "+-1", "1e3", "1.0", "0b11", "z", "Z", str(MAX), str(MAX + 1), str(MIN), str(MIN - 1), str(UNDEF), "-0x5452505452501", "0x7fffffffffffffff",
              "0x8000000000000000", "-0x8000000000000000", "-0x8000000000000001", "0777", "0o7", "１２", "\xa012", "99999999999999999999999999", "-99999999999999999999999999",
-             "000000000000000000000000000000001", "+0x1F", " +0X1f"]
+             "000000000000000000000000000000001", "+0x1F", " +0X1f",
+             "007", "-007", "0x0", "-0", "0x00000000000000000000007fffffffffffffff", "0xffffffffffffffff", "-0x7fffffffffffffff", "0x7FFFFFFFFFFFFFFF",
+             "01000000000000000000000", "0777777777777777777777", "-01000000000000000000000", "-01000000000000000000001", "9223372036854775806", "-9223372036854775807"]
     for f in fixed:
         tis.append((f.encode("latin-1", "replace") if not f.startswith("１") else f.encode("utf-8"), None))
     for base in [0, 2, 8, 10, 16, 36, 7, 1, 37, -1, 2 ** 32 + 10, UNDEF]:
@@ -492,6 +518,10 @@ def run(chk):
         tis.append((b"0x1f", base))
         tis.append((b"z", base))
         tis.append((b"10", base))
+        tis.append((b"0010", base))
+        tis.append((b"-0x10", base))
+        tis.append((b"+" + (b"1" * 63), base))
+        tis.append((b"1" * 64, base))
     for i in range(60 if not thorough else 1500):
         r = rng.fork()
         base = r.choice([None, 0, 10, 16, 8, 2, 36, r.range(2, 36)])
@@ -556,6 +586,108 @@ def run(chk):
     if sc and "M:default:a0" in sc[0]:
         chk.violation("abs-int64-min", "math.abs(-9223372036854775807 - 1) is negative: llabs(INT64_MIN) is undefined behaviour in C and returns INT64_MIN here "
                       "(pinned behaviour, theorem abs_pinned_refuted; the model of the current code says undefined, abs_exact)", {"rule": "math.abs(-9223372036854775807 - 1) < 0", "observed": "true"})
+
+    # ---- H. inputs aimed at the comparisons in the definitions, and data-form / string-form twins
+    def cuts_of(r, data, base=0, k=None):
+        n = len(data)
+        if n < 2:
+            return [(base, data)]
+        k = k or r.range(2, min(4, n))
+        cs = sorted(set(r.range(1, n - 1) for _ in range(k - 1)))
+        return [(base + a, data[a:b]) for a, b in zip([0] + cs, cs + [n])]
+
+    def scan_cmds(blocks):
+        if len(blocks) == 1 and blocks[0][0] == 0:
+            return ["scan " + hx(blocks[0][1])]
+        return ["blocks - " + " ".join("%d:%s" % (b, hx(d)) for b, d in blocks), "scanblocks"]
+
+    # 24-bit coordinates: on the circle of radius 2^24-1 (axes, 3-4-5 and 8-15-17 points), one step inside / outside
+    ON = [("ffffff", "000000"), ("000000", "ffffff"), ("999999", "cccccc"), ("cccccc", "999999"), ("787878", "e1e1e1"), ("e1e1e1", "787878")]
+    NEAR = [("fffffe", "000000"), ("ffffff", "000001"), ("000001", "ffffff"), ("999998", "cccccc"), ("99999a", "cccccc"), ("999999", "cccccb"),
+            ("999999", "cccccd"), ("cccccc", "99999a"), ("b504f3", "b504f3"), ("b504f4", "b504f3"), ("000000", "000000"), ("ffffff", "ffffff"), ("800000", "800000")]
+    G = [bytes.fromhex(x + y) for x, y in ON + NEAR]
+    filler = [bytes.fromhex("010203040506"), bytes.fromhex("f0f1f2f3f4f5"), bytes.fromhex("7f7f7f7f7f7f")]
+    aimed = []
+    for gi, g in enumerate(G):
+        f1, f2 = filler[gi % 3], filler[(gi + 1) % 3]
+        for pos, body in (("first", g + f1 + f2), ("middle", f1 + g + f2), ("last", f1 + f2 + g), ("only", g)):
+            tail = bytes([0xff, 0x00, 0x99, 0xcc, 0xfe][:(gi + len(pos)) % 6])      # 0..5 trailing bytes that must be ignored
+            aimed.append(("mc-%s-%s" % (pos, g.hex()), body + tail))
+    aimed += [("mc-short-%d" % k, G[0][:k]) for k in range(0, 6)]
+    # boundary-aware distribution: every 3-byte coordinate from the boundary set, 6-byte aligned groups
+    COORD = [bytes.fromhex(x) for x in ("ffffff", "000000", "999999", "cccccc", "fffffe", "000001", "999998", "99999a", "cccccb", "cccccd", "787878", "e1e1e1")]
+    for i in range(12 if not thorough else 150):
+        r = rng.fork()
+        body = b"".join(r.choice(COORD) + r.choice(COORD) for _ in range(r.range(1, 5))) + r.bytes(r.range(0, 5))
+        aimed.append(("mc-dist-%d" % i, body))
+    # statistics: single byte, all equal, two values (ties), extremes
+    aimed += [("st-%d" % i, d) for i, d in enumerate([b"\x00", b"\xff", b"\x80", b"aaaa", b"\xff" * 7, b"\x00" * 6, b"ab", b"ba", b"abab", b"\xff\x00",
+                                                      b"\x00\xff\x00\xff", b"\x01\x02\x03\x03\x02\x01", bytes(range(16)), b"\x7f\x80", b"zzzyyyxxx"])]
+    aimed += [("rnd-%d" % i, rng.bytes(rng.range(1, 30))) for i in range(10 if not thorough else 100)]
+    DATA_STR = [("hash.md5", "s"), ("hash.sha1", "s"), ("hash.sha256", "s"), ("hash.crc32", "i"), ("hash.checksum32", "i"),
+                ("math.entropy", "f"), ("math.mean", "f"), ("math.serial_correlation", "f"), ("math.monte_carlo_pi", "f")]
+    hb = []
+    qs, meta = [], []
+    for tag, data in aimed:
+        r = rng.fork()
+        plist = [[(0, data)], cuts_of(r, data), cuts_of(r, data, base=r.choice([0, 64]))]
+        if len(data) >= 7:
+            plist.append([(0, data[:len(data) - 3]), (len(data) - 3, data[len(data) - 3:])])     # a cut inside the last group
+        for pi, blocks in enumerate(plist):
+            base = blocks[0][0]
+            for off, ln in [(0, len(data)), (0, len(data) + 5), (1, len(data)), (6, len(data)), (0, max(len(data) - 1, 0)), (len(data) // 2, 6)]:
+                qs.append("c14r 1 %s %d %d" % (blocks_arg(blocks), base + off, ln))
+                meta.append((tag, pi, blocks, base + off, ln))
+    res = mq(qs)
+    batches = {}
+    for (tag, pi, blocks, off, ln), line in zip(meta, res):
+        d = kv(line)
+        b = batches.setdefault((tag, pi), Batch("H-%s-%d" % (tag, pi), scan_cmds(blocks)))
+        info = {"blocks": [[x, dd.hex()] for x, dd in blocks], "off": off, "len": ln, "presentation": tag}
+        a = "%s, %s" % (lit(off), lit(ln))
+        mb = d["bytes"]
+        sb_ = None if mb == "undef" else vlib.unhx(mb)
+        # the model value (integer core) and the definition
+        mv = None if sb_ is None else monte_value(d["monte"])
+        b.add(float_rule("math.monte_carlo_pi(%s)" % a, mv), "aimed:monte_carlo_pi", dict(info, why="model counts %s" % d["monte"]))
+        if sb_ is not None:
+            bl = list(sb_)
+            dist = parse_dist(d["dist"])
+            b.add("math.mode(%s) == %s" % (a, d["mode"]), "aimed:mode", dict(info, why="smallest of the most frequent bytes (mode_is_least_most_frequent)"))
+            top = max(dist.values()) if dist else 0
+            for byte in sorted(k for k in dist if dist[k] == top)[:3]:
+                b.add("math.count(%d, %s) == %d" % (byte, a, top), "aimed:count", dict(info, why="tie"))
+                b.add(float_rule("math.percentage(%d, %s)" % (byte, a), top / len(bl), rel=1e-6), "aimed:percentage", dict(info, why="tie"))
+            b.add(float_rule("math.entropy(%s)" % a, ref_entropy(bl)), "aimed:entropy", dict(info, why="reference"))
+            b.add(float_rule("math.mean(%s)" % a, ref_mean(bl)), "aimed:mean", dict(info, why="reference"))
+            b.add(float_rule("math.deviation(%s, 127.5)" % a, ref_deviation(bl, 127.5)), "aimed:deviation", dict(info, why="reference"))
+            b.add(float_rule("math.serial_correlation(%s)" % a, ref_serial(bl)), "aimed:serial_correlation", dict(info, why="reference"))
+        # twins: the data form and the string form of one function on the same bytes give IDENTICAL results (exact equality:
+        # integer sums, dyadic means and the monte carlo counts are exactly representable doubles)
+        y = ystr(sb_ if sb_ is not None else b"")
+        for fn, ty in DATA_STR + [("math.deviation", "d")]:
+            dexpr = "%s(%s%s)" % (fn, a, ", 127.5" if ty == "d" else "")
+            sexpr = "%s(%s%s)" % (fn, y, ", 127.5" if ty == "d" else "")
+            if sb_ is None:
+                continue                                    # the range is undefined: no string twin
+            undefined_both = (fn == "math.monte_carlo_pi" and len(sb_) < 6) or (fn in ("math.mean", "math.deviation") and len(sb_) == 0)
+            cond = ("not defined %s and not defined %s" % (dexpr, sexpr)) if undefined_both else "%s == %s" % (dexpr, sexpr)
+            b.add(cond, "twin:" + fn.split(".")[1], dict(info, why="data form vs string form on the same bytes", string=sb_.hex()))
+        classes.add(("aimed", tag.split("-")[0] + "-" + (tag.split("-")[1] if tag.startswith("mc-") else ""), "multi" if len(blocks) > 1 else "single",
+                     "undef" if sb_ is None else "short" if len(sb_) < 6 else "groups"))
+    run_batches(chk, hscan, list(batches.values()), stats)
+
+    # in_range: value equal to the lower / upper bound, one step (1/8) either side, empty and inverted intervals
+    qs, exprs = [], []
+    for l, u in [(-8, 8), (0, 0), (3, 3), (5, 4), (-17, -9), (0, 2 ** 40), (-(2 ** 40), 2 ** 40)]:
+        for t in sorted(set([l - 1, l, l + 1, u - 1, u, u + 1])):
+            qs.append("c14m inrange %d %d %d" % (t, l, u))
+            exprs.append("math.in_range(%s, %s, %s)" % (flit(t / 8), flit(l / 8), flit(u / 8)))
+    ib = Batch("H-inrange", ["scan " + hx(b"x")])
+    for e, v in zip(exprs, mq(qs)):
+        ib.add("%s == %s" % (e, v), "aimed:in_range", {"why": "model: " + v})
+        classes.add(("aimed", "in_range", v))
+    run_batches(chk, hscan, [ib], stats)
 
     # ---- G. (thorough) undefined behaviour in the module sources: UBSan build, lengths near INT64_MAX, abs(INT64_MIN)
     if thorough:
